@@ -163,7 +163,9 @@ fn op<Ty: EdgeType, const O: usize>(s: &mut Pair<Ty>) {
         s.md.m = 0;
         s.md.exact_edge_ix = true;
         let ok = s.try_add_edge(kani::any(), kani::any());
-        kani::cover!(ok);
+        // a second insertion re-occupies edge slot 1, where stale list heads would point
+        let ok2 = s.try_add_edge(kani::any(), kani::any());
+        kani::cover!(ok && ok2);
     }
 }
 
@@ -667,70 +669,70 @@ fn c01_p0_o6_g3_un() {
     scen::<Undirected, 0, 6, 3>()
 }
 
-// TIER: thorough BOUNDS: Graph<u8,u8,Directed,u8>; concrete prefix 0 (3 nodes, edges 0->1,1->2,0->1 (parallel)); symbolic op: clear_edges; try_add_edge(any,any); observers: counts+nodes for symbolic query arguments
+// TIER: thorough BOUNDS: Graph<u8,u8,Directed,u8>; concrete prefix 0 (3 nodes, edges 0->1,1->2,0->1 (parallel)); symbolic op: clear_edges; try_add_edge(any,any) twice; observers: counts+nodes for symbolic query arguments
 #[kani::proof]
 #[kani::unwind(7)]
 fn c01_p0_o7_g0_di() {
     scen::<Directed, 0, 7, 0>()
 }
 
-// TIER: thorough BOUNDS: Graph<u8,u8,Undirected,u8>; concrete prefix 0 (3 nodes, edges 0->1,1->2,0->1 (parallel)); symbolic op: clear_edges; try_add_edge(any,any); observers: counts+nodes for symbolic query arguments
+// TIER: thorough BOUNDS: Graph<u8,u8,Undirected,u8>; concrete prefix 0 (3 nodes, edges 0->1,1->2,0->1 (parallel)); symbolic op: clear_edges; try_add_edge(any,any) twice; observers: counts+nodes for symbolic query arguments
 #[kani::proof]
 #[kani::unwind(7)]
 fn c01_p0_o7_g0_un() {
     scen::<Undirected, 0, 7, 0>()
 }
 
-// TIER: thorough BOUNDS: Graph<u8,u8,Directed,u8>; concrete prefix 0 (3 nodes, edges 0->1,1->2,0->1 (parallel)); symbolic op: clear_edges; try_add_edge(any,any); observers: edges by index/weight for symbolic query arguments
+// TIER: thorough BOUNDS: Graph<u8,u8,Directed,u8>; concrete prefix 0 (3 nodes, edges 0->1,1->2,0->1 (parallel)); symbolic op: clear_edges; try_add_edge(any,any) twice; observers: edges by index/weight for symbolic query arguments
 #[kani::proof]
 #[kani::unwind(7)]
 fn c01_p0_o7_g1_di() {
     scen::<Directed, 0, 7, 1>()
 }
 
-// TIER: thorough BOUNDS: Graph<u8,u8,Undirected,u8>; concrete prefix 0 (3 nodes, edges 0->1,1->2,0->1 (parallel)); symbolic op: clear_edges; try_add_edge(any,any); observers: edges by index/weight for symbolic query arguments
+// TIER: thorough BOUNDS: Graph<u8,u8,Undirected,u8>; concrete prefix 0 (3 nodes, edges 0->1,1->2,0->1 (parallel)); symbolic op: clear_edges; try_add_edge(any,any) twice; observers: edges by index/weight for symbolic query arguments
 #[kani::proof]
 #[kani::unwind(7)]
 fn c01_p0_o7_g1_un() {
     scen::<Undirected, 0, 7, 1>()
 }
 
-// TIER: thorough BOUNDS: Graph<u8,u8,Directed,u8>; concrete prefix 0 (3 nodes, edges 0->1,1->2,0->1 (parallel)); symbolic op: clear_edges; try_add_edge(any,any); observers: find/contains/edges_connecting for symbolic query arguments
+// TIER: thorough BOUNDS: Graph<u8,u8,Directed,u8>; concrete prefix 0 (3 nodes, edges 0->1,1->2,0->1 (parallel)); symbolic op: clear_edges; try_add_edge(any,any) twice; observers: find/contains/edges_connecting for symbolic query arguments
 #[kani::proof]
 #[kani::unwind(7)]
 fn c01_p0_o7_g2_di() {
     scen::<Directed, 0, 7, 2>()
 }
 
-// TIER: thorough BOUNDS: Graph<u8,u8,Undirected,u8>; concrete prefix 0 (3 nodes, edges 0->1,1->2,0->1 (parallel)); symbolic op: clear_edges; try_add_edge(any,any); observers: find/contains/edges_connecting for symbolic query arguments
+// TIER: thorough BOUNDS: Graph<u8,u8,Undirected,u8>; concrete prefix 0 (3 nodes, edges 0->1,1->2,0->1 (parallel)); symbolic op: clear_edges; try_add_edge(any,any) twice; observers: find/contains/edges_connecting for symbolic query arguments
 #[kani::proof]
 #[kani::unwind(7)]
 fn c01_p0_o7_g2_un() {
     scen::<Undirected, 0, 7, 2>()
 }
 
-// TIER: quick BOUNDS: Graph<u8,u8,Directed,u8>; concrete prefix 0 (3 nodes, edges 0->1,1->2,0->1 (parallel)); symbolic op: clear_edges; try_add_edge(any,any); observers: neighbors incl. order for symbolic query arguments
+// TIER: quick BOUNDS: Graph<u8,u8,Directed,u8>; concrete prefix 0 (3 nodes, edges 0->1,1->2,0->1 (parallel)); symbolic op: clear_edges; try_add_edge(any,any) twice; observers: neighbors incl. order for symbolic query arguments
 #[kani::proof]
 #[kani::unwind(7)]
 fn c01_p0_o7_g3_di() {
     scen::<Directed, 0, 7, 3>()
 }
 
-// TIER: thorough BOUNDS: Graph<u8,u8,Undirected,u8>; concrete prefix 0 (3 nodes, edges 0->1,1->2,0->1 (parallel)); symbolic op: clear_edges; try_add_edge(any,any); observers: neighbors incl. order for symbolic query arguments
+// TIER: quick BOUNDS: Graph<u8,u8,Undirected,u8>; concrete prefix 0 (3 nodes, edges 0->1,1->2,0->1 (parallel)); symbolic op: clear_edges; try_add_edge(any,any) twice; observers: neighbors incl. order for symbolic query arguments
 #[kani::proof]
 #[kani::unwind(7)]
 fn c01_p0_o7_g3_un() {
     scen::<Undirected, 0, 7, 3>()
 }
 
-// TIER: thorough BOUNDS: Graph<u8,u8,Directed,u8>; concrete prefix 0 (3 nodes, edges 0->1,1->2,0->1 (parallel)); symbolic op: clear_edges; try_add_edge(any,any); observers: iterators+externals for symbolic query arguments
+// TIER: quick BOUNDS: Graph<u8,u8,Directed,u8>; concrete prefix 0 (3 nodes, edges 0->1,1->2,0->1 (parallel)); symbolic op: clear_edges; try_add_edge(any,any) twice; observers: iterators+externals for symbolic query arguments
 #[kani::proof]
 #[kani::unwind(7)]
 fn c01_p0_o7_g4_di() {
     scen::<Directed, 0, 7, 4>()
 }
 
-// TIER: thorough BOUNDS: Graph<u8,u8,Undirected,u8>; concrete prefix 0 (3 nodes, edges 0->1,1->2,0->1 (parallel)); symbolic op: clear_edges; try_add_edge(any,any); observers: iterators+externals for symbolic query arguments
+// TIER: thorough BOUNDS: Graph<u8,u8,Undirected,u8>; concrete prefix 0 (3 nodes, edges 0->1,1->2,0->1 (parallel)); symbolic op: clear_edges; try_add_edge(any,any) twice; observers: iterators+externals for symbolic query arguments
 #[kani::proof]
 #[kani::unwind(7)]
 fn c01_p0_o7_g4_un() {
@@ -1157,70 +1159,70 @@ fn c01_p1_o6_g3_un() {
     scen::<Undirected, 1, 6, 3>()
 }
 
-// TIER: thorough BOUNDS: Graph<u8,u8,Directed,u8>; concrete prefix 1 (3 nodes, edges 0->1, 1->1 (loop), 2->0); symbolic op: clear_edges; try_add_edge(any,any); observers: counts+nodes for symbolic query arguments
+// TIER: thorough BOUNDS: Graph<u8,u8,Directed,u8>; concrete prefix 1 (3 nodes, edges 0->1, 1->1 (loop), 2->0); symbolic op: clear_edges; try_add_edge(any,any) twice; observers: counts+nodes for symbolic query arguments
 #[kani::proof]
 #[kani::unwind(7)]
 fn c01_p1_o7_g0_di() {
     scen::<Directed, 1, 7, 0>()
 }
 
-// TIER: thorough BOUNDS: Graph<u8,u8,Undirected,u8>; concrete prefix 1 (3 nodes, edges 0->1, 1->1 (loop), 2->0); symbolic op: clear_edges; try_add_edge(any,any); observers: counts+nodes for symbolic query arguments
+// TIER: thorough BOUNDS: Graph<u8,u8,Undirected,u8>; concrete prefix 1 (3 nodes, edges 0->1, 1->1 (loop), 2->0); symbolic op: clear_edges; try_add_edge(any,any) twice; observers: counts+nodes for symbolic query arguments
 #[kani::proof]
 #[kani::unwind(7)]
 fn c01_p1_o7_g0_un() {
     scen::<Undirected, 1, 7, 0>()
 }
 
-// TIER: thorough BOUNDS: Graph<u8,u8,Directed,u8>; concrete prefix 1 (3 nodes, edges 0->1, 1->1 (loop), 2->0); symbolic op: clear_edges; try_add_edge(any,any); observers: edges by index/weight for symbolic query arguments
+// TIER: thorough BOUNDS: Graph<u8,u8,Directed,u8>; concrete prefix 1 (3 nodes, edges 0->1, 1->1 (loop), 2->0); symbolic op: clear_edges; try_add_edge(any,any) twice; observers: edges by index/weight for symbolic query arguments
 #[kani::proof]
 #[kani::unwind(7)]
 fn c01_p1_o7_g1_di() {
     scen::<Directed, 1, 7, 1>()
 }
 
-// TIER: thorough BOUNDS: Graph<u8,u8,Undirected,u8>; concrete prefix 1 (3 nodes, edges 0->1, 1->1 (loop), 2->0); symbolic op: clear_edges; try_add_edge(any,any); observers: edges by index/weight for symbolic query arguments
+// TIER: thorough BOUNDS: Graph<u8,u8,Undirected,u8>; concrete prefix 1 (3 nodes, edges 0->1, 1->1 (loop), 2->0); symbolic op: clear_edges; try_add_edge(any,any) twice; observers: edges by index/weight for symbolic query arguments
 #[kani::proof]
 #[kani::unwind(7)]
 fn c01_p1_o7_g1_un() {
     scen::<Undirected, 1, 7, 1>()
 }
 
-// TIER: thorough BOUNDS: Graph<u8,u8,Directed,u8>; concrete prefix 1 (3 nodes, edges 0->1, 1->1 (loop), 2->0); symbolic op: clear_edges; try_add_edge(any,any); observers: find/contains/edges_connecting for symbolic query arguments
+// TIER: thorough BOUNDS: Graph<u8,u8,Directed,u8>; concrete prefix 1 (3 nodes, edges 0->1, 1->1 (loop), 2->0); symbolic op: clear_edges; try_add_edge(any,any) twice; observers: find/contains/edges_connecting for symbolic query arguments
 #[kani::proof]
 #[kani::unwind(7)]
 fn c01_p1_o7_g2_di() {
     scen::<Directed, 1, 7, 2>()
 }
 
-// TIER: thorough BOUNDS: Graph<u8,u8,Undirected,u8>; concrete prefix 1 (3 nodes, edges 0->1, 1->1 (loop), 2->0); symbolic op: clear_edges; try_add_edge(any,any); observers: find/contains/edges_connecting for symbolic query arguments
+// TIER: thorough BOUNDS: Graph<u8,u8,Undirected,u8>; concrete prefix 1 (3 nodes, edges 0->1, 1->1 (loop), 2->0); symbolic op: clear_edges; try_add_edge(any,any) twice; observers: find/contains/edges_connecting for symbolic query arguments
 #[kani::proof]
 #[kani::unwind(7)]
 fn c01_p1_o7_g2_un() {
     scen::<Undirected, 1, 7, 2>()
 }
 
-// TIER: thorough BOUNDS: Graph<u8,u8,Directed,u8>; concrete prefix 1 (3 nodes, edges 0->1, 1->1 (loop), 2->0); symbolic op: clear_edges; try_add_edge(any,any); observers: neighbors incl. order for symbolic query arguments
+// TIER: thorough BOUNDS: Graph<u8,u8,Directed,u8>; concrete prefix 1 (3 nodes, edges 0->1, 1->1 (loop), 2->0); symbolic op: clear_edges; try_add_edge(any,any) twice; observers: neighbors incl. order for symbolic query arguments
 #[kani::proof]
 #[kani::unwind(7)]
 fn c01_p1_o7_g3_di() {
     scen::<Directed, 1, 7, 3>()
 }
 
-// TIER: thorough BOUNDS: Graph<u8,u8,Undirected,u8>; concrete prefix 1 (3 nodes, edges 0->1, 1->1 (loop), 2->0); symbolic op: clear_edges; try_add_edge(any,any); observers: neighbors incl. order for symbolic query arguments
+// TIER: thorough BOUNDS: Graph<u8,u8,Undirected,u8>; concrete prefix 1 (3 nodes, edges 0->1, 1->1 (loop), 2->0); symbolic op: clear_edges; try_add_edge(any,any) twice; observers: neighbors incl. order for symbolic query arguments
 #[kani::proof]
 #[kani::unwind(7)]
 fn c01_p1_o7_g3_un() {
     scen::<Undirected, 1, 7, 3>()
 }
 
-// TIER: quick BOUNDS: Graph<u8,u8,Directed,u8>; concrete prefix 1 (3 nodes, edges 0->1, 1->1 (loop), 2->0); symbolic op: clear_edges; try_add_edge(any,any); observers: iterators+externals for symbolic query arguments
+// TIER: quick BOUNDS: Graph<u8,u8,Directed,u8>; concrete prefix 1 (3 nodes, edges 0->1, 1->1 (loop), 2->0); symbolic op: clear_edges; try_add_edge(any,any) twice; observers: iterators+externals for symbolic query arguments
 #[kani::proof]
 #[kani::unwind(7)]
 fn c01_p1_o7_g4_di() {
     scen::<Directed, 1, 7, 4>()
 }
 
-// TIER: quick BOUNDS: Graph<u8,u8,Undirected,u8>; concrete prefix 1 (3 nodes, edges 0->1, 1->1 (loop), 2->0); symbolic op: clear_edges; try_add_edge(any,any); observers: iterators+externals for symbolic query arguments
+// TIER: quick BOUNDS: Graph<u8,u8,Undirected,u8>; concrete prefix 1 (3 nodes, edges 0->1, 1->1 (loop), 2->0); symbolic op: clear_edges; try_add_edge(any,any) twice; observers: iterators+externals for symbolic query arguments
 #[kani::proof]
 #[kani::unwind(7)]
 fn c01_p1_o7_g4_un() {
@@ -1647,70 +1649,70 @@ fn c01_p2_o6_g3_un() {
     scen::<Undirected, 2, 6, 3>()
 }
 
-// TIER: thorough BOUNDS: Graph<u8,u8,Directed,u8>; concrete prefix 2 (prefix 0 + remove_edge(0)); symbolic op: clear_edges; try_add_edge(any,any); observers: counts+nodes for symbolic query arguments
+// TIER: thorough BOUNDS: Graph<u8,u8,Directed,u8>; concrete prefix 2 (prefix 0 + remove_edge(0)); symbolic op: clear_edges; try_add_edge(any,any) twice; observers: counts+nodes for symbolic query arguments
 #[kani::proof]
 #[kani::unwind(7)]
 fn c01_p2_o7_g0_di() {
     scen::<Directed, 2, 7, 0>()
 }
 
-// TIER: thorough BOUNDS: Graph<u8,u8,Undirected,u8>; concrete prefix 2 (prefix 0 + remove_edge(0)); symbolic op: clear_edges; try_add_edge(any,any); observers: counts+nodes for symbolic query arguments
+// TIER: thorough BOUNDS: Graph<u8,u8,Undirected,u8>; concrete prefix 2 (prefix 0 + remove_edge(0)); symbolic op: clear_edges; try_add_edge(any,any) twice; observers: counts+nodes for symbolic query arguments
 #[kani::proof]
 #[kani::unwind(7)]
 fn c01_p2_o7_g0_un() {
     scen::<Undirected, 2, 7, 0>()
 }
 
-// TIER: thorough BOUNDS: Graph<u8,u8,Directed,u8>; concrete prefix 2 (prefix 0 + remove_edge(0)); symbolic op: clear_edges; try_add_edge(any,any); observers: edges by index/weight for symbolic query arguments
+// TIER: thorough BOUNDS: Graph<u8,u8,Directed,u8>; concrete prefix 2 (prefix 0 + remove_edge(0)); symbolic op: clear_edges; try_add_edge(any,any) twice; observers: edges by index/weight for symbolic query arguments
 #[kani::proof]
 #[kani::unwind(7)]
 fn c01_p2_o7_g1_di() {
     scen::<Directed, 2, 7, 1>()
 }
 
-// TIER: thorough BOUNDS: Graph<u8,u8,Undirected,u8>; concrete prefix 2 (prefix 0 + remove_edge(0)); symbolic op: clear_edges; try_add_edge(any,any); observers: edges by index/weight for symbolic query arguments
+// TIER: thorough BOUNDS: Graph<u8,u8,Undirected,u8>; concrete prefix 2 (prefix 0 + remove_edge(0)); symbolic op: clear_edges; try_add_edge(any,any) twice; observers: edges by index/weight for symbolic query arguments
 #[kani::proof]
 #[kani::unwind(7)]
 fn c01_p2_o7_g1_un() {
     scen::<Undirected, 2, 7, 1>()
 }
 
-// TIER: thorough BOUNDS: Graph<u8,u8,Directed,u8>; concrete prefix 2 (prefix 0 + remove_edge(0)); symbolic op: clear_edges; try_add_edge(any,any); observers: find/contains/edges_connecting for symbolic query arguments
+// TIER: thorough BOUNDS: Graph<u8,u8,Directed,u8>; concrete prefix 2 (prefix 0 + remove_edge(0)); symbolic op: clear_edges; try_add_edge(any,any) twice; observers: find/contains/edges_connecting for symbolic query arguments
 #[kani::proof]
 #[kani::unwind(7)]
 fn c01_p2_o7_g2_di() {
     scen::<Directed, 2, 7, 2>()
 }
 
-// TIER: thorough BOUNDS: Graph<u8,u8,Undirected,u8>; concrete prefix 2 (prefix 0 + remove_edge(0)); symbolic op: clear_edges; try_add_edge(any,any); observers: find/contains/edges_connecting for symbolic query arguments
+// TIER: thorough BOUNDS: Graph<u8,u8,Undirected,u8>; concrete prefix 2 (prefix 0 + remove_edge(0)); symbolic op: clear_edges; try_add_edge(any,any) twice; observers: find/contains/edges_connecting for symbolic query arguments
 #[kani::proof]
 #[kani::unwind(7)]
 fn c01_p2_o7_g2_un() {
     scen::<Undirected, 2, 7, 2>()
 }
 
-// TIER: thorough BOUNDS: Graph<u8,u8,Directed,u8>; concrete prefix 2 (prefix 0 + remove_edge(0)); symbolic op: clear_edges; try_add_edge(any,any); observers: neighbors incl. order for symbolic query arguments
+// TIER: thorough BOUNDS: Graph<u8,u8,Directed,u8>; concrete prefix 2 (prefix 0 + remove_edge(0)); symbolic op: clear_edges; try_add_edge(any,any) twice; observers: neighbors incl. order for symbolic query arguments
 #[kani::proof]
 #[kani::unwind(7)]
 fn c01_p2_o7_g3_di() {
     scen::<Directed, 2, 7, 3>()
 }
 
-// TIER: thorough BOUNDS: Graph<u8,u8,Undirected,u8>; concrete prefix 2 (prefix 0 + remove_edge(0)); symbolic op: clear_edges; try_add_edge(any,any); observers: neighbors incl. order for symbolic query arguments
+// TIER: thorough BOUNDS: Graph<u8,u8,Undirected,u8>; concrete prefix 2 (prefix 0 + remove_edge(0)); symbolic op: clear_edges; try_add_edge(any,any) twice; observers: neighbors incl. order for symbolic query arguments
 #[kani::proof]
 #[kani::unwind(7)]
 fn c01_p2_o7_g3_un() {
     scen::<Undirected, 2, 7, 3>()
 }
 
-// TIER: thorough BOUNDS: Graph<u8,u8,Directed,u8>; concrete prefix 2 (prefix 0 + remove_edge(0)); symbolic op: clear_edges; try_add_edge(any,any); observers: iterators+externals for symbolic query arguments
+// TIER: thorough BOUNDS: Graph<u8,u8,Directed,u8>; concrete prefix 2 (prefix 0 + remove_edge(0)); symbolic op: clear_edges; try_add_edge(any,any) twice; observers: iterators+externals for symbolic query arguments
 #[kani::proof]
 #[kani::unwind(7)]
 fn c01_p2_o7_g4_di() {
     scen::<Directed, 2, 7, 4>()
 }
 
-// TIER: thorough BOUNDS: Graph<u8,u8,Undirected,u8>; concrete prefix 2 (prefix 0 + remove_edge(0)); symbolic op: clear_edges; try_add_edge(any,any); observers: iterators+externals for symbolic query arguments
+// TIER: thorough BOUNDS: Graph<u8,u8,Undirected,u8>; concrete prefix 2 (prefix 0 + remove_edge(0)); symbolic op: clear_edges; try_add_edge(any,any) twice; observers: iterators+externals for symbolic query arguments
 #[kani::proof]
 #[kani::unwind(7)]
 fn c01_p2_o7_g4_un() {
@@ -2137,70 +2139,70 @@ fn c01_p3_o6_g3_un() {
     scen::<Undirected, 3, 6, 3>()
 }
 
-// TIER: thorough BOUNDS: Graph<u8,u8,Directed,u8>; concrete prefix 3 (prefix 1 + remove_node(0)); symbolic op: clear_edges; try_add_edge(any,any); observers: counts+nodes for symbolic query arguments
+// TIER: thorough BOUNDS: Graph<u8,u8,Directed,u8>; concrete prefix 3 (prefix 1 + remove_node(0)); symbolic op: clear_edges; try_add_edge(any,any) twice; observers: counts+nodes for symbolic query arguments
 #[kani::proof]
 #[kani::unwind(7)]
 fn c01_p3_o7_g0_di() {
     scen::<Directed, 3, 7, 0>()
 }
 
-// TIER: thorough BOUNDS: Graph<u8,u8,Undirected,u8>; concrete prefix 3 (prefix 1 + remove_node(0)); symbolic op: clear_edges; try_add_edge(any,any); observers: counts+nodes for symbolic query arguments
+// TIER: thorough BOUNDS: Graph<u8,u8,Undirected,u8>; concrete prefix 3 (prefix 1 + remove_node(0)); symbolic op: clear_edges; try_add_edge(any,any) twice; observers: counts+nodes for symbolic query arguments
 #[kani::proof]
 #[kani::unwind(7)]
 fn c01_p3_o7_g0_un() {
     scen::<Undirected, 3, 7, 0>()
 }
 
-// TIER: thorough BOUNDS: Graph<u8,u8,Directed,u8>; concrete prefix 3 (prefix 1 + remove_node(0)); symbolic op: clear_edges; try_add_edge(any,any); observers: edges by index/weight for symbolic query arguments
+// TIER: thorough BOUNDS: Graph<u8,u8,Directed,u8>; concrete prefix 3 (prefix 1 + remove_node(0)); symbolic op: clear_edges; try_add_edge(any,any) twice; observers: edges by index/weight for symbolic query arguments
 #[kani::proof]
 #[kani::unwind(7)]
 fn c01_p3_o7_g1_di() {
     scen::<Directed, 3, 7, 1>()
 }
 
-// TIER: thorough BOUNDS: Graph<u8,u8,Undirected,u8>; concrete prefix 3 (prefix 1 + remove_node(0)); symbolic op: clear_edges; try_add_edge(any,any); observers: edges by index/weight for symbolic query arguments
+// TIER: thorough BOUNDS: Graph<u8,u8,Undirected,u8>; concrete prefix 3 (prefix 1 + remove_node(0)); symbolic op: clear_edges; try_add_edge(any,any) twice; observers: edges by index/weight for symbolic query arguments
 #[kani::proof]
 #[kani::unwind(7)]
 fn c01_p3_o7_g1_un() {
     scen::<Undirected, 3, 7, 1>()
 }
 
-// TIER: thorough BOUNDS: Graph<u8,u8,Directed,u8>; concrete prefix 3 (prefix 1 + remove_node(0)); symbolic op: clear_edges; try_add_edge(any,any); observers: find/contains/edges_connecting for symbolic query arguments
+// TIER: thorough BOUNDS: Graph<u8,u8,Directed,u8>; concrete prefix 3 (prefix 1 + remove_node(0)); symbolic op: clear_edges; try_add_edge(any,any) twice; observers: find/contains/edges_connecting for symbolic query arguments
 #[kani::proof]
 #[kani::unwind(7)]
 fn c01_p3_o7_g2_di() {
     scen::<Directed, 3, 7, 2>()
 }
 
-// TIER: thorough BOUNDS: Graph<u8,u8,Undirected,u8>; concrete prefix 3 (prefix 1 + remove_node(0)); symbolic op: clear_edges; try_add_edge(any,any); observers: find/contains/edges_connecting for symbolic query arguments
+// TIER: thorough BOUNDS: Graph<u8,u8,Undirected,u8>; concrete prefix 3 (prefix 1 + remove_node(0)); symbolic op: clear_edges; try_add_edge(any,any) twice; observers: find/contains/edges_connecting for symbolic query arguments
 #[kani::proof]
 #[kani::unwind(7)]
 fn c01_p3_o7_g2_un() {
     scen::<Undirected, 3, 7, 2>()
 }
 
-// TIER: thorough BOUNDS: Graph<u8,u8,Directed,u8>; concrete prefix 3 (prefix 1 + remove_node(0)); symbolic op: clear_edges; try_add_edge(any,any); observers: neighbors incl. order for symbolic query arguments
+// TIER: thorough BOUNDS: Graph<u8,u8,Directed,u8>; concrete prefix 3 (prefix 1 + remove_node(0)); symbolic op: clear_edges; try_add_edge(any,any) twice; observers: neighbors incl. order for symbolic query arguments
 #[kani::proof]
 #[kani::unwind(7)]
 fn c01_p3_o7_g3_di() {
     scen::<Directed, 3, 7, 3>()
 }
 
-// TIER: thorough BOUNDS: Graph<u8,u8,Undirected,u8>; concrete prefix 3 (prefix 1 + remove_node(0)); symbolic op: clear_edges; try_add_edge(any,any); observers: neighbors incl. order for symbolic query arguments
+// TIER: thorough BOUNDS: Graph<u8,u8,Undirected,u8>; concrete prefix 3 (prefix 1 + remove_node(0)); symbolic op: clear_edges; try_add_edge(any,any) twice; observers: neighbors incl. order for symbolic query arguments
 #[kani::proof]
 #[kani::unwind(7)]
 fn c01_p3_o7_g3_un() {
     scen::<Undirected, 3, 7, 3>()
 }
 
-// TIER: thorough BOUNDS: Graph<u8,u8,Directed,u8>; concrete prefix 3 (prefix 1 + remove_node(0)); symbolic op: clear_edges; try_add_edge(any,any); observers: iterators+externals for symbolic query arguments
+// TIER: thorough BOUNDS: Graph<u8,u8,Directed,u8>; concrete prefix 3 (prefix 1 + remove_node(0)); symbolic op: clear_edges; try_add_edge(any,any) twice; observers: iterators+externals for symbolic query arguments
 #[kani::proof]
 #[kani::unwind(7)]
 fn c01_p3_o7_g4_di() {
     scen::<Directed, 3, 7, 4>()
 }
 
-// TIER: thorough BOUNDS: Graph<u8,u8,Undirected,u8>; concrete prefix 3 (prefix 1 + remove_node(0)); symbolic op: clear_edges; try_add_edge(any,any); observers: iterators+externals for symbolic query arguments
+// TIER: thorough BOUNDS: Graph<u8,u8,Undirected,u8>; concrete prefix 3 (prefix 1 + remove_node(0)); symbolic op: clear_edges; try_add_edge(any,any) twice; observers: iterators+externals for symbolic query arguments
 #[kani::proof]
 #[kani::unwind(7)]
 fn c01_p3_o7_g4_un() {
